@@ -1,2 +1,11 @@
-#!/bin/sh
-exit 0
+#!/bin/bash
+# Build the framework from files on disk only (offline). Every check rebuilds what it needs
+# from /repo's current working tree anyway; this just warms the target directories.
+set -e
+cd "$(dirname "$0")"
+export CARGO_NET_OFFLINE=true
+mkdir -p target evidence replays .work
+bin/build.sh shim cli vh vh-debug
+# shim self-test: a traced bisync must show the documented call sequence
+python3 py/selfcheck.py
+echo "setup ok"
